@@ -378,6 +378,13 @@ def _work_random(args):
                                'pairs': [[int(i), int(j)] for i, j in pairs]}]
                     except OSError:
                         ev = [{'op': 'Protein', 'lens1': lens1, 'lens2': lens2, 'outcome': 'error', 'pairs': []}]
+                    # an explicitly empty list is the user's list: nothing is guessed, whatever the residue structure
+                    if sum(lens1) != 1 and sum(lens2) != 1 and tid % 2 == 0:
+                        obs = route_observe(mols[0], mols[1], [] if tid % 4 else (), False)
+                        ev.append({'op': 'Route', 'nS': sum(lens1), 'nE': sum(lens2), 'hS': [], 'hE': [],
+                                   'restr': [], 'ignoreH': False, 'called': obs['called'],
+                                   'fixed': obs['fixed'], 'delivered': obs['delivered'], 'rows': obs['rows'],
+                                   'mobileRowsOK': obs['mobileRowsOK']})
                     # the same through align_molecules with restrictions=None (auto guess for multi-residue molecules)
                     if ev[0]['outcome'] == 'pairs' and sum(lens1) != 1 and sum(lens2) != 1:
                         obs = route_observe(mols[0], mols[1], None, False)
